@@ -48,6 +48,13 @@ def _line_units(tier):
         [['<a ', 2, '>'], [3], ['</A', 1, '>']],
         [[1, ' ', 3]],
         [['k', 2, 'v', 2]],
+        # long lines and longer texts: concrete material around short symbolic stretches
+        [['some-long.key_name', 2, 'value with  inner\tblanks and (parentheses) ', 1]],
+        [['   <sectiontype-long ', 2, 'name.long_42', 2, '>   '], ['  key.one = x'], ['# c'], [''], ['  </SectionType-Long', 1, '>']],
+        [['<a>'], ['  <b n1>'], ['    <c>'], ['      k ', 2], ['    </c>'], ['  </', 1, '>'], ['</a>'], ['tail', 1, 'x y']],
+        [['k1 v'], ['k2'], ['<s1/>'], ['<s2 nm/>'], ['%define dd ee'], [2, ' $dd'], ['<t>'], ['</t>'], ['last ', 1]],
+        [['<a>'], ['<a>'], ['<a>'], ['<a>'], ['<a>'], ['<a>'], ['k v'], ['</a>'], ['</a>'], ['</a>'], ['</a>'], ['</a>'],
+         ['</', 1, '>'], [2]],
     ]
     # every `handle_*` / public method name of the live parser class tried as a directive word
     # (a dispatch by method name would accept more than the three documented directives), and the
@@ -106,9 +113,10 @@ class C03(Harness):
 
     @property
     def bounds(self):
-        return {'quick': {'one_line_max': 6, 'two_lines_max': '3+3', 'templates': 18},
+        return {'quick': {'one_line_max': 6, 'two_lines_max': '3+3', 'templates': len(_line_units('quick')) - 7 - 9,
+                          'longest_template_lines': 14},
                 'thorough': {'one_line_max': 8, 'two_lines_max': 'a+b<=9, each <=5',
-                             'three_lines': '2..3 each', 'templates': 29}}
+                             'three_lines': '2..3 each', 'templates': len(_line_units('thorough')) - 9 - 21 - 8}}
 
     def budget(self, tier):
         return 170 if tier == 'quick' else 1500
